@@ -22,7 +22,13 @@ RULE = ("(a) bounded-exhaustive: every discipline-respecting sequence of <=5 (qu
         "replaced (overwrite=True) or kept, non-creating collections given other descriptor arguments, items() / values() / "
         "iteration / `in` inside sessions, puts through read-only collections, session bodies left by an exception; "
         "(d) a record the file rejects in the middle of a buffered collection's queue: view inside the session after every step, "
-        "second put of an accepted key and explicit flush in the next session. non-trivial = history has a reopen or a second "
+        "second put of an accepted key and explicit flush in the next session, a reading() session in between (also with "
+        "records still queued after a failed exit flush); (e) between two sessions of (c) the file is created anew "
+        "(overwrite=True) by a further collection object with the same / another number of records, the same / other keys, "
+        "while the older objects, which listed and read the old file, stay in use; (f) MoleculeLibrary / ConformerLibrary "
+        "objects creating / replacing / opening the file (comment given or not), records put through a plain Collection on "
+        "the same path, comment and lib.descriptor compared with the raw header; in (b) also open('x') on a closed handle "
+        "of the existing file followed by open() without a mode. non-trivial = history has a reopen or a second "
         "handle AND a failing operation or a stale cached table of contents; distinct by canonical history string")
 ASSUMPTIONS = [
     "session discipline of the backends: any number of read handles may be open together, a writable handle is the only "
@@ -35,6 +41,7 @@ ASSUMPTIONS = [
     "a put that returned without an error is a successful put, also when the body of its writing session raises later: "
     "after that session the file holds every earlier record, every accepted record of the session and nothing else "
     "(oversize keys, which a buffered collection only finds out at the flush, are not put in such sessions)",
+    "a get of a key that was never put raises (it does not return None or any other value)",
     "a put inside reading() of a writable collection, str keys/values without an encoder and pickling an OPEN handle are "
     "outside the property's wording and are not driven",
 ]
@@ -50,7 +57,15 @@ REQUIRED = {"ukv.op": 2000, "ukv.failing-op": 200, "ukv.rawscan": 200, "ukv.reop
             "coll.start.old-file-kept": 40, "coll.write-on-readonly": 190, "coll.write-on-readonly.in-reading-session": 100,
             "coll.session-body-raised": 150, "rejected.in-session-view.after-an-error": 300,
             "rejected.flush-raises-with-records-queued-behind": 12,
-            "rejected.second-put-while-the-first-is-still-queued": 15}
+            "rejected.second-put-while-the-first-is-still-queued": 15,
+            # added after the second gap review
+            "rejected.reading-session-next": 50, "rejected.reading-session-with-records-still-queued": 15,
+            "coll.get-unknown": 400, "coll.file-created-anew-between-sessions": 150,
+            "coll.file-created-anew-between-sessions.same-count-other-keys": 20,
+            "coll.file-created-anew-between-sessions.same-keys-other-values": 20,
+            "lib.rawscan-header-compared": 250, "lib.constructed.MoleculeLibrary": 70, "lib.constructed.ConformerLibrary": 70,
+            "lib.comment-given": 90, "lib.start.old-file-replaced": 20, "lib.created-anew-under-older-objects": 30,
+            "ukv.failing-op.reopen-x-on-existing-file": 150}
 CHUNK_TIMEOUT = 900
 TECHNIQUE = "runtime monitoring: reference map model stepped beside real UKVFile/Collection handles + independent raw-file scan"
 LEVEL_TEXT = ("Held on the histories produced: the real UKVFile / Collection objects are driven through exhaustive short and "
@@ -64,7 +79,7 @@ K255 = b"k" * 255
 # ---- KNOWN_ON_UNCHANGED_TREE ------------------------------------------------------------------------------------
 # Violation keys (without the "C02:" prefix) that the unchanged library produces; written up with a tested fix in
 # /verif/tools/findings/C02-ext.json.  They are counted ("known.<key>") instead of reported.  REMOVE AFTER THE REPAIR.
-KNOWN_ON_UNCHANGED_TREE = set()      # (the one entry it had was repaired in the library: 60bd02b)
+KNOWN_ON_UNCHANGED_TREE = set()      # (repaired in the library: 60bd02b, 1113bbc; the stale table after a same-size re-creation is an OPEN finding in known_findings.json)
 
 
 def known_or_violation(ctx, key, **detail):
@@ -97,10 +112,12 @@ def plan(tier, seed):
     for i in range(nrand):
         specs.append({"kind": "rand", "chunk": i, "n": 12 if tier == "quick" else 30})
     for i in range(8 if tier == "quick" else 32):
-        specs.append({"kind": "rejected", "chunk": i, "n": 40 if tier == "quick" else 100})
+        specs.append({"kind": "rejected", "chunk": i, "n": 60 if tier == "quick" else 100})
     ncoll = 48 if tier == "quick" else 320
     for i in range(ncoll):
         specs.append({"kind": "coll", "chunk": i, "n": 12 if tier == "quick" else 30})
+    for i in range(8 if tier == "quick" else 24):
+        specs.append({"kind": "lib", "chunk": i, "n": 25 if tier == "quick" else 50})
     return specs
 
 
@@ -128,6 +145,8 @@ def exhc_alphabet():
 def run_chunk(spec, ctx):
     if spec["kind"] == "rejected":
         return run_coll_rejected(spec, ctx)
+    if spec["kind"] == "lib":
+        return run_lib(spec, ctx)
     if spec["kind"] == "exh":
         run_exhaustive(spec, ctx)
     elif spec["kind"] == "rand":
@@ -203,6 +222,10 @@ class UkvDriver:
             return h in self.objs and self.model.handle(h).open
         if kind == "create-x":
             return True
+        if kind == "reopen-x":
+            # the closed handle is asked to create the file exclusively (refused: the file exists) and is then reopened in
+            # its own mode, which the session discipline has to allow
+            return h in self.objs and not self.model.handle(h).open and self.model.may_open(h, self.model.handle(h).mode)
         if kind == "recreate":
             return not any(x.open for x in self.model.handles.values())
         return h in self.objs  # put/get/keys need a constructed handle
@@ -308,13 +331,12 @@ class UkvDriver:
                 if raised is not None:
                     self.v(f"ukv:get:known-key-raises:{type(raised).__name__}", klen=len(k))
                 elif got != exp[1]:
-                    self.v("ukv:get:wrong-value", klen=len(k), got_len=len(got), want_len=len(exp[1]),
-                           got_head=got[:24], want_head=exp[1][:24])
+                    self.v("ukv:get:wrong-value", klen=len(k), got=_desc(got), want_len=len(exp[1]), want_head=exp[1][:24])
             else:
                 ctx.count("ukv.failing-op")
                 ctx.count(f"ukv.failing-op.get-{exp[1]}")
                 if raised is None:
-                    self.v(f"ukv:get:{exp[1]}:returns-value", klen=len(k), got_len=len(got))
+                    self.v(f"ukv:get:{exp[1]}:returns-value", klen=len(k), got=_desc(got))
         elif kind == "keys":
             pass
         elif kind in ("items", "values"):
@@ -347,6 +369,40 @@ class UkvDriver:
             else:
                 o.close()
                 self.v("ukv:create-x-on-existing-file:accepted")
+        elif kind == "reopen-x":
+            # open("x") on a closed handle of the existing file is an operation that fails: the file and the handle stay as
+            # they were, so the handle can be reopened without a mode (in its own mode) and serves its records as before
+            ctx.count("ukv.failing-op")
+            ctx.count("ukv.failing-op.reopen-x-on-existing-file")
+            self.flags.add("fail")
+            o, mode = self.objs[h], m.handle(h).mode
+            try:
+                o.open("x")
+            except Exception:  # noqa
+                pass
+            else:
+                return self.v("ukv:reopen-x-on-existing-file:accepted")
+            try:
+                o.open()
+            except Exception as e:  # noqa
+                key = f"ukv:reopen-x-on-existing-file:refused-but-handle-cannot-be-reopened-without-a-mode-afterwards:{type(e).__name__}"
+                if key in KNOWN_ON_UNCHANGED_TREE and not __import__("os").environ.get("VERIF_C02_REPORT_KNOWN"):
+                    ctx.count("known." + key)
+                    try:
+                        o.open(mode)            # naming the mode again puts the handle right: the history goes on
+                    except Exception as e2:  # noqa
+                        return self.v(f"ukv:reopen-x-on-existing-file:handle-cannot-be-reopened-at-all-afterwards:{type(e2).__name__}")
+                else:
+                    return self.v(key, err=repr(e)[:200])
+            m.do_open(h, mode)
+            self.after_failure("reopen-x-on-existing-file")
+            try:
+                o.close()
+            except Exception as e:  # noqa
+                self.v(f"ukv:close:raises:{type(e).__name__}", err=repr(e)[:200])
+            m.do_close(h)
+            if mode == "a":
+                self.rawscan()
         elif kind == "recreate":
             # while every handle is closed the file is created anew (mode "w") by another handle, with another comment /
             # descriptor block and other records: from now on the map is the new file's; handles reopened later follow it
@@ -467,6 +523,13 @@ class UkvDriver:
             if [(k, val) for k, val, _ in recs] != [(k, self.model.committed[k]) for k in keys] or h2 != b"copy":
                 self.v("ukv:copy-items:destination-records-differ", n_got=len(recs), n_want=len(keys))
         dpath.unlink()
+
+
+def _desc(got):
+    """what a get returned, for a witness: never raises, whatever kind of object it is"""
+    if isinstance(got, (bytes, bytearray)):
+        return f"<{len(got)}B:{bytes(got[:24])!r}>"
+    return f"{type(got).__name__}:{repr(got)[:40]}"
 
 
 def _fmt(op):
@@ -619,8 +682,10 @@ def run_random(spec, ctx):
                 op = ("get", h, k) + ((item,) if item else ())
             elif r < 0.94:
                 op = (rng.choice(["items", "values"]), h)
-            else:
+            elif r < 0.975:
                 op = ("keys", h)
+            else:
+                op = ("reopen-x", h)
             if not d.allowed(op):
                 continue
             d.step(op)
@@ -641,6 +706,8 @@ def run_random(spec, ctx):
 # Collection + UkvCollectionBackend sessions
 
 def run_coll(spec, ctx):
+    import os
+
     from molli.storage import Collection, UkvCollectionBackend
     from molli.storage.ukvfile import UKVFile
     from vmon.models.kvmap import scan, ScanError
@@ -700,9 +767,118 @@ def run_coll(spec, ctx):
             bad[0] = True
             ctx.violation(key, case=case, history=hist[-10:], bufsizes=bufs, **detail)
 
+        def full_view(c, stage):
+            """collection c opens a session of its own, lists the keys and reads every record: the map it shows is the
+            one the file holds now, whatever file the path held when this object looked last"""
+            col = cols[c]
+            as_writer = not ro[c] and rng.random() < 0.4
+            hist.append(("look-at-everything", stage, c, "w" if as_writer else "r"))
+            ctx.count("coll.session")
+            try:
+                with (col.writing() if as_writer else col.reading()):
+                    listed = set(col.keys())
+                    if listed != set(committed) or len(col) != len(committed):
+                        v(f"coll:{stage}:keys-differ-from-the-file:{'phantom' if listed - set(committed) else 'missing'}",
+                          collection=c, extra=sorted(listed - set(committed))[:3], missing=sorted(set(committed) - listed)[:3])
+                    for k in sorted(listed):
+                        ctx.count("coll.in-session-read")
+                        try:
+                            got = col[k]
+                        except Exception as e:  # noqa
+                            v(f"coll:{stage}:listed-key-unreadable:{type(e).__name__}", collection=c, k=k[:8])
+                            break
+                        if k in committed and got != committed[k]:
+                            key = f"coll:{stage}:get-returns-other-bytes-than-the-file-holds"
+                            if key in KNOWN_ON_UNCHANGED_TREE and not os.environ.get("VERIF_C02_REPORT_KNOWN"):
+                                ctx.count("known." + key)
+                                break
+                            v(key, collection=c, k=k[:8], got=_desc(got), bytes_of_the_replaced_file=(got == replaced.get(k)))
+                            break
+            except Exception as e:  # noqa
+                v(f"coll:{stage}:session-raises:{type(e).__name__}", collection=c, err=repr(e)[:200])
+
         keypool = ["a", "b", "k" * 255, "K" * 256, "ü" * 127, "ü" * 128, "sp ace"] + [f"i{i}" for i in range(25)]
         nsess = rng.randrange(3, 12)
+        n_anew = 0
+        replaced: dict[str, bytes] = {}
         for s in range(nsess):
+            if s >= 1 and n_anew < 2 and rng.random() < 0.16:
+                # (e) between two sessions the library is created anew (overwrite=True) by a FURTHER collection object - a
+                # script run a second time, a notebook cell executed again - while the older objects, which have listed and
+                # read the records of the file so far, stay in use.  From now on the map is the new file's, for every handle.
+                n_anew += 1
+                for c0 in range(ncol):
+                    full_view(c0, "before-the-file-is-created-anew")
+                if bad[0]:
+                    break
+                shape = rng.choice(["same-count-other-keys", "same-keys-other-values", "same-keys-other-values-same-sizes",
+                                    "other-count", "other-count", "empty", "same-sizes-in-another-order"])
+                try:
+                    file_order = [k.decode() for k, _, _ in scan(path.read_bytes())[3]]
+                except ScanError as e:
+                    v("coll:rawscan:file-not-a-clean-record-sequence", err=str(e))
+                    break
+                ctx.count("coll.file-created-anew-between-sessions")
+                ctx.count(f"coll.file-created-anew-between-sessions.{shape}")
+                flags.add("anew")
+                comment, b0, h1 = rng.choice(["anew", "anew é", None]), rng.choice([b"\x05new-descriptor", None]), rng.choice([b"NEWFMT", None])
+                kw = dict(comment=comment, b0=b0, h1=h1)
+                bs = rng.choice([-1, 0, 64, 10**6])
+                hist.append(("created-anew-by-a-further-collection", shape, bs))
+                try:
+                    newcol = Collection(path, UkvCollectionBackend, readonly=False, overwrite=True, bufsize=bs,
+                                        **{k: val for k, val in kw.items() if val is not None or rng.random() < 0.5})
+                except Exception as e:  # noqa
+                    v(f"coll:created-anew:constructor-raises:{type(e).__name__}", err=repr(e)[:200])
+                    break
+                cols.append(newcol)
+                bufs.append(bs)
+                ro.append(False)
+                ncol += 1
+                replaced = dict(committed)
+                committed.clear()
+                want_head = [h1 or UKVFile.FILE_H1_DEFAULT, (comment or "").encode(), b0 or b""]
+                start = "created-anew-between-sessions"
+                oldk = [k for k in file_order if k in replaced]       # the order the records have in the replaced file
+                in_another_order = False
+                if shape == "same-count-other-keys":
+                    recs = [(f"n{n_anew}-{i}", rng.randbytes(rng.choice([0, 3, 40]))) for i in range(len(oldk))]
+                elif shape == "same-keys-other-values":
+                    recs = [(k, b"new:" + replaced[k][::-1]) for k in oldk]
+                elif shape in ("same-keys-other-values-same-sizes", "same-sizes-in-another-order"):
+                    recs = [(k, bytes(x ^ 0x55 for x in replaced[k])) for k in oldk]
+                    if shape == "same-sizes-in-another-order":
+                        # a file of the very same size whose records sit elsewhere
+                        rng.shuffle(recs)
+                        in_another_order = [k for k, _ in recs] != oldk
+                elif shape == "other-count":
+                    recs = [(k, b"new:" + replaced[k][:50]) for k in oldk[:rng.randrange(0, len(oldk) + 1)]]
+                    recs += [(f"n{n_anew}-{i}", b"N" * i) for i in range(rng.choice([1, 2, 3]) if len(recs) == len(oldk) else rng.randrange(0, 3))]
+                else:
+                    recs = []
+                if shape in ("same-count-other-keys", "other-count"):
+                    rng.shuffle(recs)
+                try:
+                    with newcol.writing():
+                        for k, val in recs:
+                            newcol[k] = val
+                            committed[k] = val
+                except Exception as e:  # noqa
+                    v(f"coll:created-anew:first-writing-session-raises:{type(e).__name__}", err=repr(e)[:200])
+                    break
+                try:
+                    h1_, h2, b0_, got_recs, _end = scan(path.read_bytes())
+                except ScanError as e:
+                    v("coll:rawscan:file-not-a-clean-record-sequence", err=str(e))
+                    break
+                if {k.decode(): val for k, val, _ in got_recs} != committed or len(got_recs) != len(committed):
+                    v("coll:rawscan:records-differ-from-model:after-the-file-was-created-anew", n_got=len(got_recs), n_want=len(committed))
+                    break
+                for c0 in range(ncol - 1):
+                    full_view(c0, "older-collection-after-the-file-was-created-anew" +
+                              ("-with-the-same-sizes-in-another-order" if in_another_order else ""))
+                if bad[0] or in_another_order:
+                    break           # (the known defect below leaves older handles with a wrong table: the case ends here)
             c = rng.randrange(ncol)
             col = cols[c]
             writing = rng.random() < 0.65
@@ -888,11 +1064,17 @@ def run_coll(spec, ctx):
                         elif r < 0.85:
                             k = "nope" + str(rng.randrange(5))
                             hist.append(("get-unknown", k))
+                            ctx.count("coll.get-unknown")
                             try:
                                 got = col[k]
-                                v("coll:get:unknown-key-returns-value", got_len=len(got))
                             except Exception:  # noqa
                                 ctx.count("coll.failing-op")
+                            else:
+                                v("coll:get:unknown-key-returns-value", got=_desc(got))
+                                break
+                            if k in col or k in set(col.keys()):
+                                v("coll:get:unknown-key-listed-after-failed-get")
+                                break
                         elif writing and r < 0.92:
                             hist.append(("flush",))
                             col.flush()
@@ -1063,6 +1245,38 @@ def run_coll_rejected(spec, ctx):
             errors.append(type(e).__name__)
         if state["bad"]:
             continue
+        # the next session of this handle may as well be a READING one: the handle accepted every put of `want`, so it lists
+        # them and returns their bytes, whether they have reached the file or still wait in its buffer (they do when the
+        # flush at the exit of the writing session was stopped by the rejected record)
+        if rng.random() < (0.6 if session_error is not None else 0.3):
+            hist.append(("reading-session-before-the-next-writing-one", "records-still-queued" if session_error is not None else "all-flushed"))
+            if errors:
+                state["doomed"].clear()
+            try:
+                with col.reading():
+                    ctx.count("rejected.reading-session-next")
+                    if session_error is not None:
+                        ctx.count("rejected.reading-session-with-records-still-queued")
+                    inside("reading-session-after-failed-exit-flush" if session_error is not None else "reading-session-next")
+                    if not state["bad"]:
+                        try:
+                            got = col["never-put"]
+                        except Exception:  # noqa
+                            pass
+                        else:
+                            state["bad"] += 1
+                            ctx.violation(f"rejected:{bad_kind}:reading-session:unknown-key-returns-value", case=case, hist=hist,
+                                          got=_desc(got))
+                        names, n_in = sorted(col), sum(k in col for k in want)
+                        if names != sorted(want) or n_in != len(want):
+                            state["bad"] += 1
+                            ctx.violation(f"rejected:{bad_kind}:reading-session:iteration-or-membership-disagree-with-the-accepted-puts",
+                                          case=case, hist=hist, n_listed=len(names), n_member=n_in, n_want=len(want))
+            except Exception as e:  # noqa
+                state["bad"] += 1
+                ctx.violation(f"rejected:{bad_kind}:reading-session-raises:{type(e).__name__}", case=case, hist=hist, err=repr(e)[:200])
+            if state["bad"]:
+                continue
         # whatever is still queued goes out with the next session of this handle; that one must complete.  The user may
         # put one of the accepted keys again there (e.g. repeating the batch after the error): whether that put is refused
         # at once or at the flush, get keeps returning the bytes of the first, accepted put - they are what the file gets
@@ -1148,3 +1362,148 @@ def run_coll_rejected(spec, ctx):
         with fresh.reading():
             if set(fresh.keys()) != set(want):
                 ctx.violation(f"rejected:{bad_kind}:fresh-reader-lists-other-keys", case=case, hist=hist)
+
+
+# ------------------------------------------------------------------------------------------------
+# the public wrappers: MoleculeLibrary / ConformerLibrary are UKV-backed Collections created with a comment and a descriptor
+
+def run_lib(spec, ctx):
+    """A library object creates the file (fresh path / over an older file with overwrite=True) or opens an existing one; the
+    comment passed to it and its format descriptor (`lib.descriptor`) are the headers the file was created with and stay
+    so; the keys it lists are the records of the file.  Records are put through a plain Collection on the same path (a
+    second handle), so that no chemistry is needed here (C01 stores and restores molecules through these classes)."""
+    import molli as ml
+    from molli.storage import Collection, UkvCollectionBackend
+    from molli.storage.ukvfile import UKVFile
+    from vmon.models.kvmap import scan, ScanError
+
+    for j in range(spec["n"]):
+        case = ("lib", spec["chunk"], j)
+        if not ctx.want(case):
+            continue
+        rng = ctx.rng(*case)
+        cname = rng.choice(["MoleculeLibrary", "ConformerLibrary"])
+        cls = getattr(ml, cname)
+        path = ctx.tmp / f"l{j}{'.mlib' if cname == 'MoleculeLibrary' else '.clib'}"
+        hist = []
+        bad = [False]
+
+        def v(key, **detail):
+            bad[0] = True
+            ctx.violation(key, case=case, history=hist[-10:], **detail)
+
+        def make(how, overwrite, comment, readonly=False):
+            kw = dict(readonly=readonly, bufsize=rng.choice([-1, 0, 64, 10**6]))
+            if overwrite or rng.random() < 0.5:
+                kw["overwrite"] = overwrite
+            if comment is not None or rng.random() < 0.5:
+                kw["comment"] = comment
+            hist.append((how, cname, {k: val for k, val in kw.items()}))
+            ctx.count(f"lib.constructed.{cname}")
+            ctx.count("lib.comment-given" if comment is not None else "lib.comment-not-given")
+            return cls(path, **kw)
+
+        committed: dict[str, bytes] = {}
+        start = rng.choice(["fresh", "fresh", "old-file-replaced", "old-file-replaced", "old-file-kept"])
+        ctx.count(f"lib.start.{start}")
+        if start != "fresh":
+            old = UKVFile(path, mode="w", h1=b"OLDFMT", h2=b"older comment", b0=b"older-descriptor-block")
+            for k in ["a", "i1", "older"][:rng.randrange(0, 4)]:
+                old.put(k.encode(), b"older-" + k.encode())
+                if start == "old-file-kept":
+                    committed[k] = b"older-" + k.encode()
+            old.close()
+        comment = rng.choice(["cmt", "é" * 10, "c" * 300, None])
+        try:
+            lib = make("create", start == "old-file-replaced", comment)
+        except Exception as e:  # noqa
+            v(f"lib:constructor-raises:{start}:{type(e).__name__}", err=repr(e)[:200])
+            continue
+        if start == "old-file-kept":
+            want_head = [b"OLDFMT", b"older comment", b"older-descriptor-block"]
+        else:
+            want_head = [UKVFile.FILE_H1_DEFAULT, (comment or "").encode(), getattr(lib, "descriptor", None) or b""]
+        libs = [lib]
+        plain = None
+        for s in range(rng.randrange(2, 7)):
+            r = rng.random()
+            if r < 0.3:
+                # records arrive through a second handle on the same path
+                if plain is None:
+                    plain = Collection(path, UkvCollectionBackend, readonly=False, bufsize=rng.choice([-1, 0, 64, 10**6]))
+                hist.append(("plain-collection-writes",))
+                with plain.writing():
+                    for i in range(rng.randrange(0, 4)):
+                        k = f"r{s}-{i}"
+                        plain[k] = committed[k] = rng.randbytes(rng.choice([0, 7, 300]))
+            elif r < 0.45:
+                # a further library object on the existing file, given another comment: the file keeps its own
+                other = rng.choice(["another comment", None, comment])
+                try:
+                    libs.append(make("open-existing", False, other, readonly=rng.random() < 0.5))
+                except Exception as e:  # noqa
+                    v(f"lib:constructor-raises:existing-file:{type(e).__name__}", err=repr(e)[:200])
+                    break
+            elif r < 0.6 and len(libs) < 4:
+                # created anew by a further library object while the older ones stay in use
+                comment = rng.choice(["anew", "anew é", None])
+                ctx.count("lib.created-anew-under-older-objects")
+                try:
+                    libs.append(make("create-anew", True, comment))
+                except Exception as e:  # noqa
+                    v(f"lib:constructor-raises:create-anew:{type(e).__name__}", err=repr(e)[:200])
+                    break
+                committed.clear()
+                start = "created-anew"
+                want_head = [UKVFile.FILE_H1_DEFAULT, (comment or "").encode(), getattr(libs[-1], "descriptor", None) or b""]
+            # one of the library objects opens a session and lists the file
+            li = rng.randrange(len(libs))
+            L = libs[li]
+            as_writer = rng.random() < 0.5
+            hist.append(("session", li, "w" if as_writer else "r"))
+            ctx.count("lib.session")
+            try:
+                try:
+                    cm = L.writing() if as_writer else L.reading()
+                    cm.__enter__()
+                except Exception:  # noqa   (a writing session on a read-only library is refused)
+                    if not as_writer:
+                        raise
+                    cm = L.reading()
+                    cm.__enter__()
+                try:
+                    listed = set(L.keys())
+                    if listed != set(committed) or len(L) != len(committed) or any(k not in L for k in committed) \
+                            or sorted(L) != sorted(committed):
+                        v(f"lib:keys-differ-from-the-file:{'phantom' if listed - set(committed) else 'missing'}",
+                          extra=sorted(listed - set(committed))[:3], missing=sorted(set(committed) - listed)[:3])
+                finally:
+                    cm.__exit__(None, None, None)
+            except Exception as e:  # noqa
+                v(f"lib:session-raises:{type(e).__name__}", err=repr(e)[:200])
+                break
+            try:
+                h1_, h2, b0_, recs, _end = scan(path.read_bytes())
+            except ScanError as e:
+                v("lib:rawscan:file-not-a-clean-record-sequence", err=str(e))
+                break
+            ctx.count("lib.rawscan-header-compared")
+            got_head = [h1_.rstrip(b"\0"), h2, b0_]
+            if got_head != [want_head[0].rstrip(b"\0")] + want_head[1:]:
+                which = [n for n, a, b in zip(("h1", "comment", "descriptor-block"), got_head,
+                                              [want_head[0].rstrip(b"\0")] + want_head[1:]) if a != b]
+                v(f"lib:rawscan:headers-differ:{'+'.join(which)}:{start}", wrapper=cname, h1=h1_, h2=h2[:40], b0=b0_[:40],
+                  want=[x[:40] for x in want_head])
+                break
+            if start != "old-file-kept" and not b0_:
+                v(f"lib:rawscan:new-library-has-no-descriptor-block:{start}", wrapper=cname)
+                break
+            if {k.decode(): val for k, val, _ in recs} != committed or len(recs) != len(committed):
+                v("lib:rawscan:records-differ-from-model", n_got=len(recs), n_want=len(committed))
+                break
+        ctx.case(case, dkey=repr(hist), nontrivial=len(libs) > 1 or plain is not None,
+                 sample={"wrapper": cname, "start": start, "objects": len(libs), "records": len(committed)})
+        try:
+            path.unlink()
+        except OSError:
+            pass
